@@ -166,12 +166,13 @@ def blockish_terms():
     node states: 0 keep, 1 prune at level 1; inside the update additionally 2 = prune at level 2"""
     for st in itertools.product((0, 1), repeat=3):
         for so in itertools.product((0, 1, 2), repeat=2):
-            for sn in itertools.product((0, 1, 2), repeat=2):
+            for sn in itertools.product((0, 1, 2), repeat=3):
                 def mk(i, s, kids=()):
                     t = ('n', i, list(kids))
                     return ('p', s, t) if s else t
                 old = mk(10, so[0], [mk(11, so[1])]) if so[0] == 0 else mk(10, so[0], [('n', 11, [])])
-                new = mk(12, sn[0], [mk(13, sn[1])]) if sn[0] == 0 else mk(12, sn[0], [('n', 13, [])])
+                # two children under the new state: siblings pruned at different Merkle levels give the parent a mask with both bits
+                new = mk(12, sn[0], [mk(13, sn[1]), mk(14, sn[2])]) if sn[0] == 0 else mk(12, sn[0], [('n', 13, []), ('n', 14, [])])
                 term = ('n', 0, [mk(1, st[0], [('n', 4, [])]), mk(2, st[1]), ('u', old, new), mk(3, st[2])])
                 yield f'block:{"".join(map(str, st + so + sn))}', term, True
 
